@@ -383,6 +383,50 @@ impl SpVec {
     //@| if i < k { assert(tw(e1@) =~= tw(a1).push((i, a.v()))); assert(e2@ == a2); } else { assert(tw(e2@) =~= tw(a2).push(((i - k) as usize, a.v()))); assert(e1@ == a1); }
     //@+ loop 0 after
     //@| lemma_wsel_done(es0, k as int, false, n0); lemma_wsel_done(es0, k as int, true, n0);
+
+    /// ASSUMED (from_entries over `self.iter().filter_map(..)`): as SpMat::extract, for a position map injective on the stored indices
+    #[verifier::external_body] pub fn extract<F: Fn(usize) -> Option<usize>>(&self, dim: usize, f: F) -> (r: SpVec)
+        requires self.wf(), forall|t: int| 0 <= t < self.es@.len() ==> f.requires(((#[trigger] self.es@[t]).0,)),
+            forall|t: int, r1: Option<usize>, r2: Option<usize>| 0 <= t < self.es@.len() && #[trigger] f.ensures((self.es@[t].0,), r1) && #[trigger] f.ensures((self.es@[t].0,), r2) ==> r1 == r2,
+            forall|s: int, t: int, r: Option<usize>| 0 <= s < self.es@.len() && 0 <= t < self.es@.len() && #[trigger] f.ensures((self.es@[s].0,), r) && #[trigger] f.ensures((self.es@[t].0,), r) && r.is_some() ==> s == t,
+        ensures r.n@ == dim, r.wf(),
+            forall|t: int| 0 <= t < self.es@.len() ==> exists|o: Option<usize>| f.ensures(((#[trigger] self.es@[t]).0,), o) && (o.is_some() ==> o.unwrap() < dim && r.at(o.unwrap() as int) == self.es@[t].1),
+            forall|a: int| #[trigger] vhas(r.es@, a) ==> exists|t: int| 0 <= t < self.es@.len() && f.ensures(((#[trigger] self.es@[t]).0,), Some(a as usize)),
+    { unimplemented!() }
+
+    /// entries renumbered: the entry at i moves to p.at(i)
+    pub fn permute(&self, p: PermView) -> (r: SpVec)
+        requires self.wf(), p.wf(self.n@ as int),
+        ensures r.wf(), r.n@ == self.n@, forall|i: int| 0 <= i < self.n@ ==> r.at(#[trigger] p.m@[i] as int) == self.at(i),
+    //@body impl/SpVec/permute for_iter=1
+    //@+ sig
+    //@| fn permute(&self, p: PermView<'_>) -> SpVec<R>
+    //@+ closure 0 typed
+    //@| i: usize
+    //@+ closure 0
+    //@| -> (o: Option<usize>) requires i < p.m@.len() ensures o == Some(p.m@[i as int])
+    //@+ post
+    //@| assert forall|i: int| 0 <= i < self.n@ implies __ret.at(#[trigger] p.m@[i] as int) == self.at(i) by {
+    //@|     if vhas(self.es@, i) { let t = vpos(self.es@, i); lemma_vval(self.es@, t); assert(self.es@[t].0 == i); }
+    //@|     else if vhas(__ret.es@, p.m@[i] as int) { let t = choose|t: int| 0 <= t < self.es@.len() && p.m@[(#[trigger] self.es@[t]).0 as int] == p.m@[i]; if self.es@[t].0 as int != i { if (self.es@[t].0 as int) < i { assert(p.m@[self.es@[t].0 as int] != p.m@[i]); } else { assert(p.m@[i] != p.m@[self.es@[t].0 as int]); } } assert(vhas(self.es@, i)); }
+    //@| }
+
+    /// the sub-vector on the index range
+    pub fn subvec(&self, range: core::ops::Range<usize>) -> (r: SpVec)
+        requires self.wf(), range.start <= range.end,
+        ensures r.wf(), r.n@ == (range.end - range.start) as usize, forall|a: int| 0 <= a < range.end - range.start ==> #[trigger] r.at(a) == self.at(a + range.start),
+    //@body impl/SpVec/subvec for_iter=1
+    //@+ sig
+    //@| fn subvec(&self, range: Range<usize>) -> SpVec<R>
+    //@+ closure 0 typed
+    //@| i: usize
+    //@+ closure 0
+    //@| -> (o: Option<usize>) ensures o == (if range.start <= i < range.end { Some((i - range.start) as usize) } else { None })
+    //@+ post
+    //@| assert forall|a: int| 0 <= a < range.end - range.start implies #[trigger] __ret.at(a) == self.at(a + range.start) by {
+    //@|     if vhas(self.es@, a + range.start) { let t = vpos(self.es@, a + range.start); lemma_vval(self.es@, t); assert(self.es@[t].0 == a + range.start); }
+    //@|     else if vhas(__ret.es@, a) { let t = choose|t: int| 0 <= t < self.es@.len() && (#[trigger] self.es@[t]).0 - range.start == a && range.start <= self.es@[t].0 < range.end; assert(vhas(self.es@, a + range.start)); }
+    //@| }
 }
 } // verus!
 fn main() {}
